@@ -7,14 +7,15 @@ ID = "C13"
 LEVEL = "proof"
 HARNESS = "c13"
 LEAN_MODULES = ["NanoVerif.Props.C13"]
-NT = "NanoVerif.Tuner."
-NU = "NanoVerif.Tune."
-OBLIGATIONS = [NT + t for t in [
+NS = "NanoVerif.C13."
+OBLIGATIONS = [NS + t for t in [
+    # building blocks
     "localSearch_inGrid", "localSearch_nodup", "localSearch_length_le", "mergeSort_sortSpec", "hintedSort_sortSpec",
     "evaluate_nodup", "nonfinite_rejected_evaluate",
+    # tuner_t::optimize, both tuners: every callback, every SortSpec, every surrogate oracle
     "steps_in_grid", "steps_params_on_grid", "steps_nodup", "steps_budget", "steps_sorted_first_min", "steps_true_values",
-    "steps_perm_trace", "trace_in_grid", "trace_nodup", "nonfinite_rejected", "optimize_terminates",
-]] + [NU + t for t in [
+    "steps_perm_trace", "trace_in_grid", "trace_nodup", "trace_budget", "nonfinite_rejected", "optimize_terminates",
+    # ml::tune / ml::result_t
     "decode_bijective", "slots_disjoint", "tune_calls_once", "batch_slots", "batch_keeps_old", "optimum_is_argmin",
 ]]
 TRUSTED = [
@@ -44,7 +45,10 @@ RULE = ("function level: local_search for every source point of small boxes (d <
         "are requested and the centre is proposed again and filtered); distinct by op text")
 FLAVOUR = {"quick": "plain", "thorough": "asan"}
 HARNESS_TIMEOUT = 1500
+# ml::tune opens one log file per (trial, fold) under std::filesystem::temp_directory_path(): keep them out of /tmp
+# (the harness works in a private sub-directory of TMPDIR and removes it)
 _TMP = os.path.join(vlib.CACHE, "tmp-c13")
+os.makedirs(_TMP, exist_ok=True)
 HARNESS_ENV = {"TMPDIR": _TMP}
 DBL_MAX = 1.7976931348623157e308
 
@@ -226,7 +230,6 @@ def gen_tune(rng, tuner=None):
 
 
 def gen(rng, tier):
-    os.makedirs(_TMP, exist_ok=True)
     ops = []
     cp = os.path.join(vlib.VERIF, "corpus", "C13", "ops.txt")
     if os.path.exists(cp):
@@ -238,13 +241,13 @@ def gen(rng, tier):
             for src in itertools.product(*[range(-1, m + 2) for m in mx]):
                 for r in (0, 1, 2, 3):
                     ops.append(f"tuner lsearch {lst([0] * d)} {lst(mx)} {lst(src)} {r}")
-    for _ in range(300 if big else 60):
+    for _ in range(1500 if big else 300):
         d = rng.range(1, 5)
         mn = [rng.range(-3, 3) for _ in range(d)]
         mx = [m + rng.range(0, 31) for m in mn]
         src = [rng.range(a - 2, b + 2) for a, b in zip(mn, mx)]
         ops.append(f"tuner lsearch {lst(mn)} {lst(mx)} {lst(src)} {rng.choice([1, 1, 2, 4, 8, 16, 32, 64, rng.range(0, 40)])}")
-    for _ in range(3000 if big else 300):
+    for _ in range(9000 if big else 1500):
         ops.append(gen_evaluate(rng))
     # boundary cases of the run level first: grids of 2 and 31 values, max_evals 10
     for tuner in ("local-search", "surrogate"):
@@ -253,13 +256,13 @@ def gen(rng, tier):
                 ops.append(gen_run(rng, tuner=tuner, kind=kind, d=len(sizes), sizes=sizes, max_evals=10))
     ops.append(gen_run(rng, tuner="local-search", kind="inj", d=3, sizes=[31, 31, 31], max_evals=1000))
     ops.append(gen_run(rng, tuner="local-search", kind="bowl", d=3, sizes=[31, 31, 31], max_evals=1000))
-    for _ in range(2500 if big else 260):
+    for _ in range(8000 if big else 1300):
         ops.append(gen_run(rng))
-    for _ in range(40 if big else 6):
+    for _ in range(120 if big else 20):
         ops.append(gen_run(rng, kind="extreme"))
-    for _ in range(20 if big else 4):
+    for _ in range(40 if big else 6):
         ops.append(gen_run(rng, kind="huge", max_evals=rng.choice([10, 20])))
-    for _ in range(1200 if big else 120):
+    for _ in range(3000 if big else 450):
         ops.append(gen_tune(rng))
     return ops
 
